@@ -195,6 +195,12 @@ def run(ctx):
     cc = [("frag-3SGB-I [ccc]", "frag-3SGB-I [ccc]", 300000, (1, 0, 0), 0, False),
           ("frag-3SGB-I [ccc+shared+keep]", "frag-3SGB-I [ccc+shared+keep]", 27000, (0, 0, 1), 1, False)]
     combos += cc if ctx.thorough() else [cc[ctx.seed % 2]]
+    # earlier work in the same process - a run under a parameter file with much larger cut-offs - leaves nothing behind
+    from . import c02
+    prime = c02.param_file({"desolv_cutoff": 100.0, "buried_cutoff": 80.0, "coulomb_cutoff2": 40.0}, "wide-cutoffs")
+    pr = runner.run(C.join(ps["frag-3SGB-I"] + [C.TER]), ["-q", "-p", prime], write=False)
+    ctx.count()
+    ctx.extra["priming_run_with_wide_cutoffs"] = "ok" if pr.exc is None else repr(pr.exc)
     rels = []
     skipped = 0
     for a, b, gap, d, order, meet in combos:
